@@ -302,7 +302,14 @@ class MITMProxyEventManager:
                     old_events = parsed_eq_resp["events"]
                     new_events = []
                     for event in old_events:
-                        if not self._handle_eq_event(cap_data.session(), region, event):
+                        try:
+                            swallowed = self._handle_eq_event(cap_data.session(), region, event)
+                        except Exception:
+                            # An event we can't make sense of must not take the rest of the
+                            # response down with it, the viewer gets that one event as-is.
+                            LOG.exception("Failed to handle EQ event, passing it through untouched")
+                            swallowed = False
+                        if not swallowed:
                             new_events.append(event)
                     # Add on any fake events that've been queued by addons
                     eq_manager = cap_data.region().eq_manager
